@@ -9,6 +9,7 @@ import (
 	"testing"
 	"time"
 
+	"github.com/cenkalti/rain/v2/torrent"
 	"github.com/cenkalti/rain/v2/zzverif/core"
 	"github.com/cenkalti/rain/v2/zzverif/refcodec"
 )
@@ -23,6 +24,7 @@ type c03Arg struct {
 	Partial    bool  `json:"partial"` // the client holds only piece 0
 	Depth      int   `json:"depth"`
 	Layout     int   `json:"layout"`
+	Twin       bool  `json:"twin"` // a second seeding torrent (same layout, other content) shares the session's read cache
 }
 
 var c03Layouts = []Layout{
@@ -44,10 +46,13 @@ type c03Req struct {
 func mkC03() *Scenario {
 	sc := &Scenario{Name: "c03", Horizon: 400}
 	var arg c03Arg
-	var p1 *Peer
+	var p1, p2 *Peer
+	var g2 *GenTorrent
 	var sent []*c03Req
+	var sent2 []Req
 	ops := 0
 	seenPieces := 0
+	seenPieces2 := 0
 	sc.Setup = func(w *World) {
 		json.Unmarshal(w.Arg, &arg)
 		g := Gen(c03Layouts[arg.Layout])
@@ -93,6 +98,45 @@ func mkC03() *Scenario {
 		if !p1.GotHS {
 			core.HarnessError("c03 setup: no handshake from client")
 		}
+		if arg.Twin {
+			first, g1 := w.Tor, w.G
+			l2 := c03Layouts[arg.Layout]
+			l2.Name, l2.Salt = l2.Name+"-twin", 3
+			g2 = Gen(l2)
+			t2, err := w.S.AddTorrent(bytes.NewReader(g2.MetaInfo), &torrent.AddTorrentOptions{Stopped: true, ID: "twin"})
+			if err != nil {
+				core.HarnessError("c03 setup: add twin: %v", err)
+			}
+			w.Tors = append(w.Tors, t2)
+			w.Quiesce()
+			w.Store.Mutate("twin", func(files map[string]*MemFile) {
+				for fi, f := range g2.L.Files {
+					if !f.Pad {
+						files[g2.StoragePath(fi)] = &MemFile{Name: g2.StoragePath(fi), Data: append([]byte{}, g2.FileData[fi]...)}
+					}
+				}
+			})
+			w.Launch("StartTwin", func() any { return t2.Start() })
+			w.drain(300)
+			if st := t2.VerifState().Status; st != "Seeding" {
+				core.HarnessError("c03 setup: twin status %s", st)
+			}
+			p2 = w.NewPeer("p2", "10.0.0.2", 5002)
+			p2.Fast = arg.Fast
+			if err := p2.ConnectIn(t2.VerifState().Port, g2.InfoHash); err != nil {
+				core.HarnessError("c03 setup: connect twin: %v", err)
+			}
+			w.drain(100)
+			p2.Send(refcodec.Simple(refcodec.MsgInterested))
+			p1.Send(refcodec.Simple(refcodec.MsgInterested))
+			w.drain(100)
+			w.Advance(10 * time.Second) // unchoke round
+			w.drain(100)
+			if p2.ClientChoke || p1.ClientChoke {
+				core.HarnessError("c03 setup: peers still choked (p1 %v, p2 %v)", p1.ClientChoke, p2.ClientChoke)
+			}
+			w.Tor, w.G = first, g1
+		}
 	}
 	send := func(w *World, r Req) {
 		g := w.G
@@ -132,6 +176,8 @@ func mkC03() *Scenario {
 			{"cross-16k", Req{0, 16000, 1000}},
 			{"piece-tail", Req{0, pl - 7, 7}},
 			{"last-piece-short-tail", Req{last, lastLen - min(lastLen, 300), min(lastLen, 300)}},
+			{"last-piece-past-its-end", Req{last, lastLen - min(lastLen, 100), 1000}},        // inside the nominal piece length
+			{"last-piece-begin-past-its-end", Req{last, lastLen + (pl-lastLen)/2, 16}}, // begin beyond the short piece
 			{"piece1", Req{1, 0, 16384}},
 			{"zero-length", Req{0, 0, 0}},
 			{"too-long", Req{0, 0, 16385}},
@@ -157,6 +203,19 @@ func mkC03() *Scenario {
 			}
 		})
 		add("unchoke-tick", func(w *World) { w.Advance(10 * time.Second) })
+		if arg.Twin && p2.Connected() {
+			// the same positions asked from the twin torrent: same piece index and cache block, other content
+			for _, sh := range shapes[:7] {
+				sh := sh
+				if sh.r.Begin >= pl && sh.n == "cross-cache-block" {
+					continue
+				}
+				add("twin:req:"+sh.n, func(w *World) {
+					sent2 = append(sent2, sh.r)
+					p2.Send(refcodec.Request(sh.r.Index, sh.r.Begin, sh.r.Length))
+				})
+			}
+		}
 		return a
 	}
 	sc.Actions = func(w *World) []Action {
@@ -234,6 +293,33 @@ func mkC03() *Scenario {
 			}
 		}
 	}
+	check1 := sc.Check
+	sc.Check = func(w *World) {
+		check1(w)
+		if p2 == nil {
+			return
+		}
+		for ; seenPieces2 < len(p2.PieceMsgs); seenPieces2++ {
+			m := p2.PieceMsgs[seenPieces2]
+			w.Count("twin_piece_frames", 1)
+			idx, beg, data := m.Index(), m.Begin(), m.Block()
+			ok := false
+			for _, r := range sent2 {
+				if r.Index == idx && r.Begin == beg && int(r.Length) == len(data) {
+					ok = true
+				}
+			}
+			if !ok {
+				w.Failf("C03.twin.wrong-length", "twin torrent: piece(%d,%d,len=%d) does not answer any request exactly", idx, beg, len(data))
+				continue
+			}
+			off := int(idx)*g2.L.PieceLen + int(beg)
+			if off+len(data) > len(g2.Data) || !bytes.Equal(data, g2.Data[off:off+len(data)]) {
+				cross := off+len(data) <= len(w.G.Data) && bytes.Equal(data, w.G.Data[off:off+len(data)])
+				w.Failf("C03.twin.wrong-bytes", "twin torrent: piece(%d,%d,len=%d) differs from the twin's content (equals the other torrent's bytes at that position: %v)", idx, beg, len(data), cross)
+			}
+		}
+	}
 	sc.Final = func(w *World) {
 		// a valid request for a held piece sent while unchoked is answered (unless cancelled or the peer was dropped)
 		if !p1.Connected() {
@@ -262,7 +348,7 @@ func mkC03() *Scenario {
 func TestC03Lab(t *testing.T) {
 	ServeIfWorker(t)
 	rep := core.NewReport("C03", "lab-upload", "model_checking")
-	rep.Rule = "seeding / partially seeding torrent x read-cache block size {16K,24K,128K} x cache capacity {one block, ample} x leecher {fast, non-fast}: every history of <= depth operations over {interested, 14 request shapes (aligned, unaligned, crossing cache block / 16 KiB edge, tails, zero, too long, past end, index n / 2^32-1, overflowing begin), cancel, unchoke tick}; every piece frame decoded by the reference codec and compared with the ground truth"
+	rep.Rule = "seeding / partially seeding torrent x read-cache block size {16K,24K,128K} x cache capacity {one block, ample} x leecher {fast, non-fast}: every history of <= depth operations over {interested, 16 request shapes (aligned, unaligned, crossing cache block / 16 KiB edge, tails, zero, too long, past end, past the end of the short last piece, index n / 2^32-1, overflowing begin), cancel, unchoke tick}; every piece frame decoded by the reference codec and compared with the ground truth; plus two seeding torrents of one layout and different content sharing the session read cache, every history of requests at the same positions of either torrent"
 	rep.Assumptions = []string{"request field values from the shape lattice; full 32-bit product is covered by the component-level part", "one leecher"}
 	depth := 2
 	var runs []Run
@@ -283,6 +369,14 @@ func TestC03Lab(t *testing.T) {
 				}
 			}
 		}
+	}
+	// two torrents, one read cache: every history of 2 (thorough 3) requests over {torrent A, twin B} x 7 positions
+	for _, cb := range []int64{16384, 131072} {
+		d := 2
+		if core.Thorough() {
+			d = 3
+		}
+		runs = append(runs, Run{Scenario: "c03", Arg: c03Arg{CacheBlock: cb, CacheSize: 256 << 20, Depth: d, Layout: 0, Twin: true}, Budget: 0, MaxExec: 200000})
 	}
 	Explore("TestC03Lab", rep, runs)
 	if n, _ := rep.Extra["piece_frames"].(int64); n == 0 {
